@@ -252,6 +252,66 @@ def run_blocked(req):
     return {"obs": obs[:6], "stats": {"depth": len(nm), "managers": sum(x[0] for x in nm)}}
 
 
+def run_deep(req):
+    """a blocked thread whose stack is deeper than the recursion limit in force when it is inspected (it went deep while
+    the limit was raised; the limit has been lowered again since)"""
+    old = sys.getrecursionlimit()
+    n = old + req.get("extra", 300)
+    ev, ready = threading.Event(), threading.Event()
+
+    def descend(k):
+        if k == 0:
+            ready.set()
+            ev.wait(60)
+            return 0
+        return descend(k - 1) + 1
+
+    def entry():
+        descend(n)
+
+    obs = []
+    sys.setrecursionlimit(n + 500)
+    try:
+        th = threading.Thread(target=entry, daemon=True)
+        th.start()
+        ok = ready.wait(60)
+    finally:
+        sys.setrecursionlimit(old)
+    if not ok:
+        ev.set()
+        return {"harness_error": "deep thread did not reach its blocking point"}
+    try:
+        with warnings.catch_warnings(record=True) as w:
+            warnings.simplefilter("always")
+            try:
+                st = extract(th, with_contexts=False)
+            except BaseException as ex:
+                st = None
+                obs.append({"kind": "raised", "exc": repr(ex)})
+        if st is not None:
+            inner = sys._current_frames().get(th.ident)
+            chain = []
+            while inner is not None:
+                chain.append(inner)
+                inner = inner.f_back
+            got = [f.pyframe for f in st.frames]
+            if got != chain[::-1] or st.error is not None or w:
+                obs.append({"kind": "deep_thread_frames", "got": len(got), "exp": len(chain), "error": repr(st.error),
+                            "first": st.frames[0].funcname if st.frames else None,
+                            "warnings": [str(x.message)[:100] for x in w]})
+            del st, got, chain
+    finally:
+        # let the thread unwind under the raised limit again: a thread that finds itself far above the limit when it next
+        # makes a call is a fatal interpreter error on CPython <= 3.11
+        sys.setrecursionlimit(n + 500)
+        try:
+            ev.set()
+            th.join(60)
+        finally:
+            sys.setrecursionlimit(old)
+    return {"obs": obs, "stats": {"depth": n, "managers": 0}}
+
+
 # ===================================================================================== racing leg
 
 class M:
@@ -687,6 +747,8 @@ def run_stress(req):
 
 
 def handle(req):
+    if req["op"] == "threads.deep":
+        return run_deep(req)
     op = req["op"]
     if op == "threads.blocked":
         return run_blocked(req)
